@@ -671,6 +671,14 @@ fn exec<E: Elem>(op: &str, vals: &mut Vec<Val<E>>, forms: &[String], arg: i64, m
             with_iter!(take(vals, 0), it => { if let Some(x) = it.last() { o.vals.push(x) } }, bad());
             o
         }
+        "collect_iter" => {
+            let mut o = Outcome::new();
+            with_iter!(take(vals, 0), it => with_len!(uarg, N => match GenericArray::<E, N>::try_from_iter(it.filter(|_| true)) {
+                Ok(a) => o.outs.push(a.wrap()),
+                Err(_) => o.err = true,
+            }, bad()), bad());
+            o
+        }
         "iter_fold" => {
             let mut o = Outcome::new();
             o.res = with_iter!(take(vals, 0), it => it.fold(0i64, |acc, x| ctx.fold::<E, E>(acc, x)), bad());
